@@ -148,6 +148,18 @@ def program(draw, tier):
     stmts, edges = draw(loops(start, end, big))
     nested = draw(st.integers(0, 3)) == 0
     info = [{"fb": e[0], "prod": e[1], "passive": e[2], "init": e[3], "schema": e[4], "rp": f"rp{j}", "rf": f"rf{j}"} for j, e in enumerate(edges)]
+    mapped = (not nested) and draw(st.integers(0, 4)) == 0
+    if mapped:
+        # the whole loop lives inside EVERY child of a map_ over two keys that are there from the start; the keys' elements tick
+        # at other times than the loops write, so a child waiting for its delivery cycle sees its sibling being woken
+        body = stmts + [{"id": "ret", "op": "node", "ins": [edges[0][1]] if edges[0][4] == "TS[int]" else ["s0"], "out": "TS[int]", "fn": "sum"}]
+        sub = {"params": ["TS[int]"], "names": ["x"], "out": "TS[int]", "stmts": body, "ret": "ret"}
+        dsc = [[start, [{"k": "D", "ops": [["set", 1, 0], ["set", 2, 0]]}]]] + \
+              [[t, [{"k": "D", "ops": [["set", draw(st.integers(1, 2)), t]]}]] for t in draw(gen.time_set(start + 1, end - 1, 0, 6))]
+        top = [{"id": "dd", "op": "src", "schema": "TSD[int,TS[int]]", "script": dsc},
+               {"id": "mp", "op": "op", "name": "map_", "args": [{"fn": "g"}, {"ts": "dd"}], "has_out": True},
+               {"id": "out", "op": "node", "ins": ["mp"], "valid": []}]
+        return {"prog": {"start": start, "end": end, "stmts": top, "subs": {"g": sub}}, "edges": info, "nested": True, "mapped": True}
     if not nested:
         return {"prog": {"start": start, "end": end, "stmts": stmts}, "edges": info, "nested": False}
     # the whole loop lives inside a nested child graph; absolute source scripts still apply (child starts with the root)
@@ -180,9 +192,12 @@ def check(case, ctx) -> Result:
     prefix = "g." if case["nested"] else ""
     back_to_back = False
     deliveries = {}
-    for e in case["edges"]:
-        W = [(t, val, cd) for (t, val, cd) in tr.stream(prefix + e["rp"])]
-        F = [(t, val, cd) for (t, val, cd) in tr.stream(prefix + e["rf"])]
+    gids = sorted({x[1] for x in resp["trace"] if x[0] == "gs" and isinstance(x[1], str) and x[1].count("/") == 1}) if case.get("mapped") else [None]
+    if case.get("mapped"):
+        res.labels.append("loop_inside_map_children")
+    for gid_, e in [(g_, e_) for g_ in gids for e_ in case["edges"]]:
+        W = [(t, val, cd) for (t, val, cd) in tr.stream(prefix + e["rp"], 0, gid_)]
+        F = [(t, val, cd) for (t, val, cd) in tr.stream(prefix + e["rf"], 0, gid_)]
         if any(b[0] == a[0] + 1 for a, b in zip(W, W[1:])):
             back_to_back = True
         exp = []
